@@ -378,6 +378,12 @@ static JV handle(const Plan &p, bool do_shrink) {
 	std::string sig = sig_of(r);
 	JV r2 = run_once(p);
 	if (sig_of(r2) != sig || r2.gets("trace") != r.gets("trace")) {
+		if (r.gets("rule") == "hang" && !r2.getb("violated")) {
+			// the wall-clock limit is the one judgement that depends on real time: a run that was merely slow once (loaded machine) is not a finding and not a harness defect
+			r2.set("seed", JV::str(std::to_string(p.seed))); r2.set("profile", JV::str(p.profile)); r2.set("nops", JV::num((double)p.ops.size()));
+			r2.set("inconclusive", JV::str("wall-clock limit reached once, not on the second execution"));
+			return r2;
+		}
 		r.set("gate", JV::str("FAILED: second execution gave " + sig_of(r2) + " trace " + r2.gets("trace")));
 		return r;
 	}
